@@ -438,6 +438,31 @@ PROPS["C13"] = {
 }
 
 
+# BDF main loop (R-round, one iteration, newton_maxiter = 1)
+def _rb():
+    import sys
+    if VERIF not in sys.path:
+        sys.path.insert(0, VERIF)
+    from rsym import units_bdf as UB
+    return UB
+
+
+_BDF_NOTE = (" BDF: the same inductive one-iteration execution of BDF::solve with the simplified Newton loop unrolled once (newton_maxiter = 1), "
+             "the order enumerated 1..5, the LU factorisation succeeding or failing nondeterministically, matrices / difference array / norms as free data.")
+for _p in ("C03", "C18", "C19", "C11"):
+    PROPS[_p]["files"] = PROPS[_p]["files"] + ["src/methods/bdf.rs"]
+    PROPS[_p]["explanation"] += _BDF_NOTE
+    PROPS[_p]["outside"] = [o.replace("Radau, BDF", "Radau; BDF with more than one Newton iteration per step").replace("Radau/BDF (not yet interpreted by R)", "Radau; BDF with more than one Newton iteration per step") for o in PROPS[_p]["outside"]]
+PROPS["C18"]["r"]["quick"] = PROPS["C18"]["r"]["quick"] + [_rb().bdf_iteration(False), _rb().bdf_iteration(True)]
+PROPS["C18"]["r"]["thorough"] = PROPS["C18"]["r"]["thorough"] + [_rb().bdf_iteration(False), _rb().bdf_iteration(True)]
+PROPS["C19"]["r"]["quick"] = PROPS["C19"]["r"]["quick"] + [_rb().bdf_protocol(False), _rb().bdf_protocol(True)]
+PROPS["C19"]["r"]["thorough"] = PROPS["C19"]["r"]["thorough"] + [_rb().bdf_protocol(False), _rb().bdf_protocol(True), _rb().bdf_iteration(False), _rb().bdf_iteration(True)]
+PROPS["C03"]["r"]["quick"] = PROPS["C03"]["r"]["quick"] + [_rb().bdf_iteration(False)]
+PROPS["C05"]["r"]["quick"] = PROPS["C05"]["r"]["quick"] + [_rb().bdf_iteration(True)]
+PROPS["C05"]["r"]["thorough"] = PROPS["C05"]["r"]["thorough"] + [_rb().bdf_iteration(False), _rb().bdf_iteration(True)]
+PROPS["C03"]["r"]["thorough"] = PROPS["C03"]["r"]["thorough"] + [_rb().bdf_iteration(False), _rb().bdf_iteration(True)]
+PROPS["C11"]["r"]["thorough"] = PROPS["C11"]["r"]["thorough"] + [_rb().bdf_iteration(False), _rb().bdf_iteration(True)]
+
 # solve_ivp head (zero-interval shortcut, what is handed to the handler)
 for _t in ("quick", "thorough"):
     PROPS["C03"]["r"][_t] = PROPS["C03"]["r"][_t] + [_rh().solve_ivp_head]
